@@ -1,26 +1,41 @@
 #!/usr/bin/env python3
-"""Sensitivity helper: apply one textual mutation to /repo's working tree, run a check, revert.
-usage: tools/mut.py <Cxx> <repo-relative-file> <old> <new> [--engine name] [--tier quick]
-Never commits; always restores the file (git checkout) afterwards."""
-import subprocess, sys, time
+"""Sensitivity helper: copy /repo's HEAD into a scratch worktree (outside /repo and /verif), apply one
+textual mutation (or a patch file) there, run a check against it via VERIF_REPO, remove the worktree.
+usage: tools/mut.py <Cxx> <repo-relative-file> <old> <new> [run.py args...]
+       tools/mut.py <Cxx> --patch <file.diff> [run.py args...]
+/repo itself is never touched."""
+import os, shutil, subprocess, sys, tempfile, time
 from pathlib import Path
-prop, rel, old, new = sys.argv[1:5]
-extra = sys.argv[5:]
-p = Path("/repo") / rel
-src = p.read_text()
-if src.count(old) < 1:
-    sys.exit(f"pattern not found in {rel}")
-assert subprocess.run(["git", "-C", "/repo", "status", "--porcelain", "--untracked-files=no"], capture_output=True, text=True).stdout.strip() == "", "repo dirty"
-p.write_text(src.replace(old, new, 1))
-t = time.time()
+prop = sys.argv[1]
+wt = tempfile.mkdtemp(prefix="vt-mut-")
+os.rmdir(wt)
+subprocess.run(["git", "-C", "/repo", "worktree", "add", "-q", "--detach", wt, "HEAD"], check=True)
 try:
-    r = subprocess.run(["/verif/run.py", prop] + (extra or ["--tier", "quick"]), capture_output=True, text=True, cwd="/verif")
+    if sys.argv[2] == "--patch":
+        patch = os.path.abspath(sys.argv[3])
+        extra = sys.argv[4:]
+        subprocess.run(["git", "-C", wt, "apply", patch], check=True)
+        label = patch
+    else:
+        rel, old, new = sys.argv[2:5]
+        extra = sys.argv[5:]
+        p = Path(wt) / rel
+        src = p.read_text()
+        if src.count(old) < 1:
+            sys.exit(f"pattern not found in {rel}")
+        p.write_text(src.replace(old, new, 1))
+        label = f"{rel}: {old!r} -> {new!r}"
+    t = time.time()
+    r = subprocess.run(["/verif/run.py", prop] + (extra or ["--tier", "quick"]), capture_output=True, text=True,
+                       cwd="/verif", env=dict(os.environ, VERIF_REPO=wt, VT_NO_EVIDENCE="1"))
 finally:
-    subprocess.run(["git", "-C", "/repo", "checkout", "--", rel], check=True)
+    subprocess.run(["git", "-C", "/repo", "worktree", "remove", "--force", wt])
+    shutil.rmtree(wt, ignore_errors=True)
 viol = [l for l in r.stdout.splitlines() if l.startswith("VIOLATION")]
-print(f"MUTANT {rel}: {old!r} -> {new!r}: rc={r.returncode} violations={len(viol)} in {time.time()-t:.0f}s")
-for l in r.stdout.splitlines()[:6]:
-    print("   ", l[:300])
+sigs = [l.strip()[:260] for l in r.stdout.splitlines() if l.strip().startswith("signature=")]
+print(f"MUTANT {label}: rc={r.returncode} violations={len(viol)} in {time.time()-t:.0f}s")
+for l in sigs[:4]:
+    print("   ", l)
 if r.returncode == 2:
     print(r.stderr[-1500:])
 print("CAUGHT" if r.returncode == 1 else "MISSED")
